@@ -19,5 +19,5 @@ package common
 //@ func BigIntToBytes(int)
 //@   trusted
 //@   ensures fresh(result) && bytesval(result) == big32enc(ite(int == nil, 0, val(int)))
-//@   ensures int == nil || (0 <= val(int) && val(int) < pow2(256)) ==> len(result) == 32
+//@   ensures int == nil || (0 <= val(int) && val(int) < pow2(256)) ==> len(result) == 32 && bebytes(result) == ite(int == nil, 0, val(int))
 //@   modifies nothing
